@@ -2,7 +2,13 @@
 
 package daemon
 
-import "sort"
+import (
+	"errors"
+	"sort"
+
+	"github.com/skycoin/skycoin/src/daemon/gnet"
+	"github.com/skycoin/skycoin/src/params"
+)
 
 // Export file for check C24 (group peers): read access to the five private indexes of Connections,
 // thin wrappers around the four private state-machine methods and the private getters.
@@ -150,4 +156,38 @@ func VerifAll(c *Connections) []VerifConn {
 	}
 	sort.Slice(out, func(i, j int) bool { return out[i].Addr < out[j].Addr })
 	return out
+}
+
+// ---- the Connections of a Daemon, driven through the daemon's own connection event handlers (C24, second exploration) ----
+
+// VerifMiniDaemon returns a Daemon that has exactly what onConnectEvent / onDisconnectEvent touch: a fresh Connections, a real
+// gnet pool run offline (messages to unknown connections fail and are logged) and a configuration; stop() shuts the pool down.
+func VerifMiniDaemon() (dm *Daemon, stop func()) {
+	gpool, err := gnet.NewConnectionPool(gnet.NewConfig(), nil)
+	if err != nil {
+		panic(err)
+	}
+	done := make(chan struct{})
+	go func() {
+		defer close(done)
+		gpool.RunOffline() //nolint:errcheck
+	}()
+	dm = &Daemon{
+		config: DaemonConfig{LocalhostOnly: true, IPCountsMax: 1000, Mirror: 99, ProtocolVersion: 2, userAgent: "skycoin:0.26.0",
+			UnconfirmedVerifyTxn: params.UserVerifyTxn},
+		pool:        &Pool{Pool: gpool},
+		connections: NewConnections(),
+		events:      make(chan interface{}, 64),
+	}
+	return dm, func() { gpool.Shutdown(); <-done }
+}
+
+func VerifDaemonConnections(dm *Daemon) *Connections { return dm.connections }
+
+func VerifOnConnectEvent(dm *Daemon, addr string, gnetID uint64, solicited bool) {
+	dm.onConnectEvent(ConnectEvent{GnetID: gnetID, Addr: addr, Solicited: solicited})
+}
+
+func VerifOnDisconnectEvent(dm *Daemon, addr string, gnetID uint64) {
+	dm.onDisconnectEvent(DisconnectEvent{GnetID: gnetID, Addr: addr, Reason: errors.New("connection reset")})
 }
